@@ -81,7 +81,7 @@ func (fv *FuncVer) callValue(st *State, ins ssa.Instruction, callee Val, args []
 		// call through a function value we know nothing about
 		sig, _ := cc.Value.Type().Underlying().(*types.Signature)
 		name := "funcvalue"
-		if p, ok := cc.Value.(*ssa.Parameter); ok {
+		if p := paramOf(cc.Value); p != nil {
 			name = "param:" + p.Name()
 		}
 		r := fv.callbackCall(st, ins, name, sig, args, cc)
@@ -308,6 +308,55 @@ func (fv *FuncVer) callbackCall(st *State, ins ssa.Instruction, name string, sig
 		}
 	}
 	fv.recordEventT(st, name, ats, rts, ins)
+	// callback contracts of the function under verification
+	if p := paramOf(cc.Value); p != nil && len(st.frames) == 1 && fv.block != nil {
+		env := fv.newEnv(st, st.old)
+		for k, v := range fv.entryVars {
+			env.vars[k] = v
+		}
+		ps := sig.Params()
+		for i, a := range ats {
+			if i < ps.Len() {
+				env.vars[fmt.Sprintf("arg%d", i)] = SVal{T: a, Typ: ps.At(i).Type()}
+			}
+		}
+		n := 0
+		for _, cl := range fv.block.ClausesOf("cbrequires") {
+			if cl.Target != p.Name() {
+				continue
+			}
+			n++
+			label := cl.Name
+			if label == "" {
+				label = fmt.Sprintf("#%d", n)
+			}
+			g := fv.evalBool(env, cl.Expr)
+			fv.oblige(st, "callback:"+p.Name()+"/requires["+label+"]", fv.callSiteAnchor(ins, p.Name()), ins.Pos(), g, "at every call of "+p.Name()+": "+cl.Text)
+			st.assume(g)
+		}
+		for i, t := range rts {
+			env.vars[fmt.Sprintf("cbresult%d", i)] = SVal{T: t, Typ: sig.Results().At(i).Type()}
+			if i == 0 {
+				env.vars["cbresult"] = env.vars["cbresult0"]
+			}
+		}
+		// simultaneous update of ghost locals
+		type upd struct {
+			name string
+			v    *Term
+		}
+		var ups []upd
+		for _, cl := range fv.block.ClausesOf("cbupdate") {
+			if cl.Target != p.Name() {
+				continue
+			}
+			v := env.eval(cl.Expr)
+			ups = append(ups, upd{cl.Var, v.T})
+		}
+		for _, u := range ups {
+			st.globals["gl:"+u.name] = u.v
+		}
+	}
 	if blk := fv.block; blk != nil && blk.Flags["callbacks"] == "pure" {
 		return r
 	}
@@ -347,7 +396,7 @@ func (fv *FuncVer) havocAll(st *State, why string) {
 		st.heaps[k] = fv.ctx.Fresh("hv_"+k, st.heaps[k].Sort)
 	}
 	for k := range st.globals {
-		if strings.HasPrefix(k, "iter:") {
+		if strings.HasPrefix(k, "iter:") || strings.HasPrefix(k, "gl:") {
 			continue
 		}
 		if fv.eng.immutableGlobal(k) {
@@ -592,4 +641,32 @@ func (fv *FuncVer) parseAssigns(s string, env *SpecEnv) []string {
 
 func (fv *FuncVer) sortOfHeapKey(k string) *Sort {
 	return fv.heapSorts[k]
+}
+
+
+// paramOf: the function parameter a value denotes (directly, or through the
+// load of its spill slot in NaiveForm).
+func paramOf(v ssa.Value) *ssa.Parameter {
+	switch x := v.(type) {
+	case *ssa.Parameter:
+		return x
+	case *ssa.UnOp:
+		if a, ok := x.X.(*ssa.Alloc); ok && x.Op == token.MUL {
+			for _, p := range a.Parent().Params {
+				if p.Name() == a.Comment && p.Pos() == a.Pos() {
+					// the spill slot must not be reassigned
+					n := 0
+					for _, r := range *a.Referrers() {
+						if s, ok := r.(*ssa.Store); ok && s.Addr == a {
+							n++
+						}
+					}
+					if n == 1 {
+						return p
+					}
+				}
+			}
+		}
+	}
+	return nil
 }
